@@ -7,7 +7,9 @@ PROPS = ["c20_published", "c20_published_sites", "c20_site_verdict_needed", "c20
          "c20_roundtrip", "c20_expire", "c20_expire_only_old", "c20_history", "c20_loop_request", "c20_loop_saved",
          "c20_old_aws_refuted", "c20_old_roundtrip_refuted", "c20_old_expire_refuted",
          "c20_stalled_subscriber", "c20_waiting_fanout_refuted", "c20_save_atomic", "c20_saves_last_renamed",
-         "c20_backup_rename_refuted", "c20_startup_name_only", "c20_startup_leftover"]
+         "c20_backup_rename_refuted", "c20_startup_name_only", "c20_startup_leftover",
+         "c20_issue_delivered_churn", "c20_count_keyed_table_refuted",
+         "c20_read_pure", "c20_history_reader_independent", "c20_mutating_reader_refuted"]
 
 TRUSTED = [
     "encoding/gob and bufio between saveEvents and loadEvents (run for real on every save/reload; the model has 'a complete document of generation g' or 'something the decoder rejects'); Dominator fsutil.CreateRenamingWriter/Close is modelled as its list of file operations (open f~, write, fsync, close, rename, remove) and run for real with injected faults; the file system itself is names -> contents with atomic rename (no directory fsync, no delayed allocation)",
@@ -17,6 +19,8 @@ TRUSTED = [
     "the recorder harness sets CreateTime of the event just recorded (recordEvent stamps time.Now() itself); expiry and load read the real clock",
     "tools/extract c20.go: signing-site table (handler reachability by name, lexical order of publish and response) and notifier send table",
     "fake STS endpoint in front of the cloud-role path",
+    "subscriber churn (harness/kmd/c20k.go): the instant a new connection is registered is taken to be just before the first event it is handed (settle publications are made until it is handed one); a disconnect is complete when ServeHTTP has returned; a connection that has not been handed an event after 2 s (25 ms once four such waits have run out) is not waited for again before the end of its history",
+    "readers of the history (harness/httpd/c20h.go): routes, parameter names and candidate values come from a syntactic harvest of the eventmon/httpd sources (go/parser at run time: Handle/HandleFunc arguments; FormValue / PostFormValue / Query().Get / Form / PostForm / Header accessors; token-like string literals); the handlers are reached through http.DefaultServeMux after one StartServer(0, ...) whose *EventRecorder is a harness-made value pointed at the recorder under test before every request; a reader is modelled by its effect on the read-out it is handed (any function) — that the tree's readers are the httpd handlers (the only senders on RequestEventsChannel) is by grep, not proved",
 ]
 
 def corr(ctx, res, name, label, idxfile):
@@ -56,11 +60,15 @@ def run(ctx):
     export = os.path.join(core.VERIF, "harness", "eventnotifier", "verif_export.go")
     base = os.path.join(ctx.work, "base_eventrecorder.go")
     open(base, "w").write(open(os.path.join(core.VERIF, "harness", "base", "base.go")).read().replace("package verifbase", "package eventrecorder", 1))
+    base_h = os.path.join(ctx.work, "base_httpd.go")
+    open(base_h, "w").write(open(os.path.join(core.VERIF, "harness", "base", "base.go")).read().replace("package verifbase", "package httpd", 1))
     from concurrent.futures import ThreadPoolExecutor
-    with ThreadPoolExecutor(max_workers=3) as ex:
+    with ThreadPoolExecutor(max_workers=4) as ex:
+        # readers of the history: the handlers of eventmon/httpd in front of a real recorder
+        f4 = ex.submit(ctx.go_harness, "eventmon/httpd", "TestVerif_C20H", [base_h, "httpd/c20h.go"])
         # subscribers on the production connection path only (no file added to the notifier package)
         f3 = ex.submit(ctx.go_harness, "cmd/keymasterd", "TestVerif_C20S",
-                       ["kmd/common.go", "kmd/creds.go", "kmd/c20s.go", os.path.join(ctx.work, "gen", "mux_gen.go")])
+                       ["kmd/common.go", "kmd/creds.go", "kmd/c20s.go", "kmd/c20k.go", os.path.join(ctx.work, "gen", "mux_gen.go")])
         f1 = ex.submit(ctx.go_harness, "cmd/keymasterd", "TestVerif_C20",
                        ["kmd/common.go", "kmd/creds.go", "kmd/consts.go", "kmd/c20.go", os.path.join(ctx.work, "gen", "mux_gen.go")],
                        extra_overlay={os.path.join(core.REPO, "keymasterd", "eventnotifier", "zz_verif_export.go"): export})
@@ -68,6 +76,7 @@ def run(ctx):
         ok, result, log = f1.result()
         rec_ok, rec_result, rec_log = f2.result()
         s_ok, s_result, s_log = f3.result()
+        h_ok, h_result, h_log = f4.result()
     if compile_gen(ctx, names=("Tables.v",)):
         ctx.gen_obligations("Obl_C20.v", ["c20_sites_cover", "c20_sends_nonblocking", "c20_sites_publish", "c20_sites_reported"])
     jobs = []
@@ -82,9 +91,15 @@ def run(ctx):
     if s_result is not None:
         jobs.append(("CasesC20S.v", "c20s_mismatches", "CasesC20S.idx",
                      "subscribers on the production connection path with every lag 0..15 and two that stop reading: no operation blocks, queue of a reader never full, stream handed to each reader = the published sequence, to a stalled one = what the model's queue accepted (%s publishes and reads)", "c20s_ncases"))
+    if s_result is not None and os.path.exists(os.path.join(ctx.work, "CasesC20K.v")):
+        jobs.append(("CasesC20K.v", "c20k_mismatches", "CasesC20K.idx",
+                     "subscriber churn on the production connection path (every order of connects and disconnects up to six operations, longer random ones, something published after each): the stream handed to every connection = the model's table keyed by the connection's own channel (%s connects, disconnects, publishes and reads)", "c20k_ncases"))
     if rec_result is not None:
         jobs.append(("CasesC20L.v", "c20l_mismatches", "CasesC20L.idx",
                      "recorder event loop: every history answer and every saved file = model (%s scenarios)", "c20l_ncases"))
+    if h_result is not None and os.path.exists(os.path.join(ctx.work, "CasesC20H.v")):
+        jobs.append(("CasesC20H.v", "c20h_mismatches", "CasesC20H.idx",
+                     "readers of the history (every route of eventmon/httpd x the parameters it reads x candidate values, harvested from the package source) between the last event and the save, then a restart: every read-out after a reader ran, the saved file and the restarted recorder = the model's loop with readers that only look (%s reader requests)", "c20h_ncases"))
     if rec_result is not None and os.path.exists(os.path.join(ctx.work, "CasesC20F.v")):
         jobs.append(("CasesC20F.v", "c20f_mismatches", "CasesC20F.idx",
                      "recorder save with a crash point or a failing file operation, then a restart through New(): what it comes back with = what the model's save with the same crash / fault index leaves under the history name (%s saves)", "c20f_ncases"))
@@ -102,10 +117,16 @@ def run(ctx):
                 corr(ctx, res, "c20u_mismatches", "recorder start-up next to leftover files and on a damaged file: what New() comes back with = the model's start-up, which looks at the history file's own name only (%s directories)" % res.get("c20u_ncases", "?"), "CasesC20U.idx")
                 violating(ctx, res, "c20u_violating", "startup-leftover", "CasesC20U.idx",
                           "property predicate evaluated in Coq on the observed start-up: a start on a good history file comes back with that history whatever lies next to it")
+            if j[1] == "c20h_mismatches":
+                violating(ctx, res, "c20h_violating", "history-changed-by-reader", j[2],
+                          "property predicate evaluated in Coq on the observations: every read-out handed out after a reader ran, the saved file and what the restarted recorder comes back with are the events recorded, in order")
+            if j[1] == "c20k_mismatches":
+                violating(ctx, res, "c20k_violating", "churn", j[2],
+                          "property predicate evaluated in Coq on the observed streams: every connection was handed exactly the events published while it was connected (between its connect and its disconnect), in order")
             if j[1] == "c20s_mismatches":
                 violating(ctx, res, "c20s_violating", "stream", j[2],
                           "property predicate evaluated in Coq on the observed streams: every operation returned, every healthy subscriber was handed exactly the published sequence, a stalled one a subsequence of it")
     ctx.assumptions = ["clock readings of one recorder never go backwards (hypothesis `monotone` of c20_history); the wall clock is later than 1970-02-01 (no uint64 wrap of now-31d)",
                        "subscriber identity: a detached channel stays in the model's list with live=false instead of being deleted from the map"]
-    return ctx.finish("bin/build-coq; coqc Audit_Props_C20/Obl_C20/CasesC20/CasesC20R; go test -overlay TestVerif_C20 (cmd/keymasterd) TestVerif_C20R (eventmon/eventrecorder)",
+    return ctx.finish("bin/build-coq; coqc Audit_Props_C20/Obl_C20/CasesC20/CasesC20R; go test -overlay TestVerif_C20 TestVerif_C20S (cmd/keymasterd) TestVerif_C20R (eventmon/eventrecorder) TestVerif_C20H (eventmon/httpd); coqc CasesC20S/K/L/F/H",
                       COMMON_TRUSTED + TRUSTED)
